@@ -21,7 +21,7 @@ import common  # noqa: E402
 S0 = {'foo': 'padding:10', 'tab': 'margin:1'}
 S1 = {'foo': 'padding:10', 'tab': 'border:1'}
 MS1 = {'bad': 'x)', 'good': 'section.sn', 'sig': 'p.sig{-- ${who}}'}
-OBJS = ['m1', 'm2', 'm3', 'm4', 'm5', 'm6', 'm7', 'm8', 's1', 's2', 's3', 's4', 's5', 's6', 's7', 's8', 's9', 's10']
+OBJS = ['m1', 'm2', 'm3', 'm4', 'm5', 'm6', 'm7', 'm8', 'm9', 'm10', 'm11', 's1', 's2', 's3', 's4', 's5', 's6', 's7', 's8', 's9', 's10']
 
 ABBR = {
     'markup': {'ok': 'ul>li.item$*2>a', 'wrap': 'ul>li*', 'badparse': 'ul>li)', 'badsnippet': 'ul>bad*', 'bem': 'div.b>.-e_m+p.b__x', 'var': '!>sig'},
@@ -30,14 +30,17 @@ ABBR = {
 
 
 def make_objects(emmet):
-    k1, k2 = {}, {}
+    k1, k2, k3 = {}, {}, {}
     o = {
         'm1': {'text': ['a', 'b'], 'snippets': dict(MS1)},
         'm2': {'options': {'bem.enabled': True}},
         'm3': emmet.Config({'text': 'T', 'snippets': dict(MS1)}),
         'm4': {},
         'm6': {'variables': {'lang': 'fr', 'who': 'me'}, 'snippets': {'sig': 'p.sig{-- ${who}}'}},
-        'm5': {'syntax': 'pug', 'text': ['x', '', 'y'], 'options': {'bem.enabled': True, 'comment.enabled': True}},
+        'm5': {'syntax': 'pug', 'text': ['x', '', 'y'], 'options': {'bem.enabled': True, 'comment.enabled': True, 'output.indent': '  ', 'output.newline': '\r\n'}},
+        'm9': {'variables': {'lang': 'ru', 'charset': 'koi8-r'}, 'cache': k3},
+        'm10': {'variables': {'lang': 'de'}, 'cache': k3},
+        'm11': {'text': [], 'options': {'output.indent': '    '}},
         'm7': {'syntax': 'jsx', 'options': {'markup.attributes': {'class': 'class', 'for': 'for'}}},
         'm8': {'syntax': 'jsx'},
         's9': {'type': 'stylesheet', 'options': {'stylesheet.unitAliases': {'v': 'vw', 'r': 'rpx'}}},
@@ -51,7 +54,7 @@ def make_objects(emmet):
         's7': {'type': 'stylesheet', 'snippets': dict(S0), 'options': {'stylesheet.intUnit': 'pt'}, 'cache': k1, 'context': {'name': '@@section'}},
         's8': {'type': 'stylesheet', 'snippets': dict(S0), 'options': {'stylesheet.intUnit': 'pt'}, 'cache': k1, 'context': {'name': '@@property'}},
     }
-    return o, [k1, k2]
+    return o, [k1, k2, k3]
 
 
 def _typ(name):
@@ -74,7 +77,7 @@ def _text_state(emmet, obj, initial):
     if d['text'] is None:
         return 'None'
     if 'text' in initial and d['text'] == initial['text']:
-        return 'T'
+        return 'T' if d['text'] else 'E'
     return 'other'
 
 
@@ -87,6 +90,51 @@ def _call(emmet, obj, abbr):
         return ['parse-error', type(ex).__name__, getattr(ex, 'pos', None)]
     except Exception as ex:
         return ['internal', type(ex).__name__, str(ex)[:100]]
+
+
+def _freeze(v, depth=0):
+    """structural value of a table: containers by content, library objects by class and attribute values, anything else by itself"""
+    if depth > 12:
+        return '...'
+    if isinstance(v, dict):
+        return ('dict', tuple((repr(k), _freeze(x, depth + 1)) for k, x in v.items()))
+    if isinstance(v, (list, tuple)):
+        return (type(v).__name__, tuple(_freeze(x, depth + 1) for x in v))
+    if isinstance(v, (set, frozenset)):
+        return ('set', tuple(sorted(repr(x) for x in v)))
+    if (getattr(type(v), '__module__', '') or '').startswith('emmet') and not isinstance(v, type):
+        names = [n for c in type(v).__mro__ for n in getattr(c, '__slots__', ())] + list(getattr(v, '__dict__', {}))
+        return (type(v).__name__, tuple((n, _freeze(getattr(v, n, None), depth + 1)) for n in names))
+    if isinstance(v, (str, int, float, bool, type(None))):
+        return v
+    return type(v).__name__
+
+
+def _tables():
+    """the module-level tables of the library - every dict / list / set bound to a global name of an emmet module - with their
+    structural value now"""
+    snap = {}
+    for mname, mod in list(sys.modules.items()):
+        if mname == 'emmet' or mname.startswith('emmet.'):
+            for k, v in list(vars(mod).items()):
+                if isinstance(v, (dict, list, set)) and not k.startswith('__'):
+                    snap[(mname, k)] = (v, _freeze(v), copy.deepcopy(v) if _plain(v) else None)
+    return snap
+
+
+def _plain(v, depth=0):
+    if isinstance(v, dict):
+        return depth < 8 and all(_plain(x, depth + 1) for x in v.values())
+    if isinstance(v, (list, tuple, set)):
+        return depth < 8 and all(_plain(x, depth + 1) for x in v)
+    return isinstance(v, (str, int, float, bool, type(None)))
+
+
+def _tables_same(snap):
+    for key, (live, frozen, _) in snap.items():
+        if _freeze(live) != frozen:
+            return key
+    return None
 
 
 def _census():
@@ -141,6 +189,7 @@ def _run_histories(items):
     import emmet
     out = []
     for tid, hist in items:
+        tables = _tables()
         objs, caches = make_objects(emmet)
         initial = {n: (o.user_config if isinstance(o, emmet.Config) else o) for n, o in objs.items()}
         initial = {n: copy.deepcopy({k: v for k, v in d.items() if k != 'cache'}) for n, d in initial.items()}
@@ -156,9 +205,20 @@ def _run_histories(items):
             leaked_types = sorted(set(type(o).__name__ for o in leaked))[:5]
             del leaked, live_objs
             same = all(_snapshot(emmet, objs[n]) == snaps[n] for n in objs)
+            changed = _tables_same(tables)
             calls.append({'c': c, 'ab': ab, 'texts': {n: _text_state(emmet, objs[n], initial[n]) for n in objs},
-                          'same': same, 'fresh': res == _FRESH[(c, ab)], 'live': live,
-                          'result': res, 'leaked_types': leaked_types})
+                          'same': same, 'fresh': res == _FRESH[(c, ab)], 'live': live, 'tables': changed is None,
+                          'result': res, 'leaked_types': leaked_types, 'changed_table': list(changed) if changed else None})
+            if changed:
+                # put the table back so that the rest of the history (and the next one in this worker) is judged on its own
+                live_t, _, saved = tables[changed]
+                if saved is not None and isinstance(live_t, dict):
+                    live_t.clear(); live_t.update(copy.deepcopy(saved))
+                elif saved is not None and isinstance(live_t, list):
+                    live_t[:] = copy.deepcopy(saved)
+                elif saved is not None:
+                    live_t.clear(); live_t.update(copy.deepcopy(saved))
+                tables = _tables()
         out.append({'tid': tid, 'calls': calls})
     return out
 
@@ -174,10 +234,11 @@ def run(out):
                        'fresh-interpreter results: one new Python process per call kind']
     import emmet  # noqa
     # ---- spec self-test: every named deviation must be caught by TLC (non-vacuity of the invariants)
-    devs = ['noRestore', 'addsKey', 'bakeUnits', 'staleTable', 'leakBem', 'scopeInCache']
+    devs = ['noRestore', 'addsKey', 'bakeUnits', 'staleTable', 'leakBem', 'scopeInCache', 'markupCache', 'dropFalsyText']
     expect = {'noRestore': 'CallerConfigStable', 'addsKey': 'CallerConfigStable', 'bakeUnits': 'ResultPure',
-              'staleTable': 'ResultPure', 'leakBem': 'NoRetention', 'scopeInCache': 'ResultPure'}
-    for d in (devs if not quick else devs[out.seed % 6:][:1] + ['bakeUnits']):
+              'staleTable': 'ResultPure', 'leakBem': 'NoRetention', 'scopeInCache': 'ResultPure', 'markupCache': 'ResultPure',
+              'dropFalsyText': 'CallerConfigStable'}
+    for d in (devs if not quick else devs[out.seed % 8:][:1] + ['bakeUnits']):
         r = common.run_tlc('Session', cfg='Session_selftest', constants={'MaxCalls': 3, 'Deviations': {d}}, workers=4)
         if r.violated != expect[d]:
             raise common.MachineryError('spec self-test: deviation %s should violate %s, TLC says %r' % (d, expect[d], r.violated))
@@ -226,7 +287,7 @@ def run(out):
             out.violation('internal error in a fresh interpreter', {'call': k, 'result': v})
     items = list(enumerate(hl, 1))
     traces = common.pool_map(_run_histories, items, chunk=60)
-    tl = [{'tid': t['tid'], 'calls': [{k: c[k] for k in ('c', 'ab', 'texts', 'same', 'fresh', 'live')} for c in t['calls']]}
+    tl = [{'tid': t['tid'], 'calls': [{k: c[k] for k in ('c', 'ab', 'texts', 'same', 'fresh', 'live', 'tables')} for c in t['calls']]}
           for t in traces]
     verdicts, r = common.validate_traces('Trace_Session', tl, heap='8g')
     ncalls = sum(len(t['calls']) for t in traces)
@@ -241,13 +302,13 @@ def run(out):
             c = t['calls'][idx - 1]
             out.violation('history: ' + v[2], {'history': [[x['c'], x['ab']] for x in t['calls'][:idx]],
                                                'abbreviations': [ABBR[_typ(x['c'])][x['ab']] for x in t['calls'][:idx]],
-                                               'call_index': idx, 'observed': {k: c[k] for k in ('texts', 'same', 'fresh', 'live', 'result', 'leaked_types')},
+                                               'call_index': idx, 'observed': {k: c[k] for k in ('texts', 'same', 'fresh', 'live', 'tables', 'changed_table', 'result', 'leaked_types')},
                                                'fresh_result': _FRESH[(c['c'], c['ab'])]})
 
     def shares(h):
         seen = set()
         for c, ab in h:
-            key = c if c[0] == 'm' else ('k1' if c in ('s1', 's2', 's3', 's6', 's7', 's8', 's10') else c)
+            key = ('k3' if c in ('m9', 'm10') else c) if c[0] == 'm' else ('k1' if c in ('s1', 's2', 's3', 's6', 's7', 's8', 's10') else c)
             if key in seen:
                 return True
             seen.add(key)
